@@ -35,6 +35,11 @@ def _case(draw):
     c["outlier"] = draw(st.booleans())
     c["perm_seed"] = draw(st.integers(0, 1000))
     c["bare"] = draw(st.booleans())   # log_prob of the base distribution itself (identity transform)
+    c["embed"] = draw(st.booleans())       # flows: context through an embedding network
+    c["dup_ctx"] = draw(st.booleans())     # repeated context rows in cycled (unsorted) order: o0 o1 o2 o0 o1 o2
+    if draw(st.integers(0, 3)) == 0:
+        from vf.props.c13 import _add_dropout
+        c["spec"] = _add_dropout(c["spec"], draw(st.sampled_from([0.3, 0.5])))     # inert in evaluation mode
     return c
 
 
@@ -80,6 +85,9 @@ def run_case(case):
             if case["outlier"]:
                 X[0] = X[0] * 0 + 15.0 * (1 if case["inp"]["seed"] % 2 else -1)
         ctx = zoo.gen_context(b, ctxk, n + 2, case["inp"]["seed"]) if ctxk is not None else None
+        if ctx is not None and case.get("dup_ctx"):
+            ctx = ctx[torch.arange(n + 2) % max(2, (n + 2) // 2)].contiguous()
+            res.labels.append("dup_ctx")
         target = case["target"]
         flat_out = len(b.out_shape) == 1
         if target in ("log_prob", "noise") and (not flat_out or len(b.in_shape) != 1):
@@ -100,7 +108,14 @@ def run_case(case):
                     X[0] = 15.0 * (1 if case["inp"]["seed"] % 2 else -1)
                     X[1] = -12.0
                 res.labels.append("bare_distribution")
-            flow = Flow(m, base)
+            emb = None
+            if case.get("embed") and ctxk is not None and len(b.in_shape) == 1:
+                emb = torch.nn.Linear(3, ctxk)
+                ctx = torch.randn(n + 2, 3, generator=torch.Generator().manual_seed(case["inp"]["seed"] + 21))
+                if case.get("dup_ctx"):
+                    ctx = ctx[torch.arange(n + 2) % max(2, (n + 2) // 2)].contiguous()
+                res.labels.append("embedding_net")
+            flow = Flow(m, base, embedding_net=emb)
             flow.eval()
             res.labels.append("base:" + case["base"])
             if target == "log_prob":
@@ -153,6 +168,16 @@ def run_case(case):
                 if not noise_floor:
                     rel = 8 * (2.2e-16 if case["precise"] else 1.2e-7)
                     worst = [0.0] * len(full)
+                    try:
+                        again = f0(Xn, Cn)
+                        repeatable = all(torch.equal(torch.nan_to_num(u), torch.nan_to_num(v)) for u, v in zip(again, full))
+                    except Exception:
+                        repeatable = True
+                    if not repeatable:
+                        # the very same evaluation does not reproduce itself (randomness active in evaluation mode): conditioning
+                        # is no excuse for that
+                        noise_floor.append(worst)
+                        return worst
                     for sgn in (-1.0, 1.0):
                         try:
                             pert = f0(Xn * (1 + sgn * rel), Cn * (1 + sgn * rel) if Cn is not None else None)
